@@ -644,12 +644,77 @@ def c19_run(case):
     return None
 
 
+# ----------------------------------------------------------------------------- C01 - C14 (run-time)
+def rt_cases(prop):
+    def gen(tier, rng):
+        from replay import runtime as RT
+        k = {'quick': 250, 'thorough': 6000}[tier]
+        # hand-written scenarios first: the situations the statements single out
+        J = lambda n, **kw: dict(dict(name=n, type='job', duration=1, outcome='ret', critical=False, forever=False,
+                                      cancel_delay=0, shutdown_duration=0), **kw)
+        S = lambda n, mem, edges=(), **kw: dict(dict(name=n, type='sched', members=mem, edges=list(edges), window=None,
+                                                     timeout=None, shutdown_timeout=1, critical=False, forever=False), **kw)
+        fixed = [
+            S('top', [J('a', outcome='raise'), J('b'), J('c')], window=1),
+            S('top', [J('a', outcome='raise'), J('b'), J('c'), J('d')], [(3, 0)], window=2),
+            S('top', [J('a')], timeout=0),
+            S('top', [J('a')], timeout=0, critical=True),
+            S('top', [S('in', [J('x', duration=5)])], timeout=1),
+            S('top', [S('in', [J('x', duration=5, cancel_delay=0.25)]), J('c', critical=True, outcome='raise')]),
+            S('top', [S('in', [S('in2', [J('x', duration=5)])], critical=True), J('y', duration=2)], timeout=1.5),
+            S('top', [J('a'), J('b', duration=3)], [(1, 0)], timeout=2),
+            S('top', [J('f', duration=None, forever=True), J('a'), J('b')], [(2, 1)]),
+            S('top', [J('a', duration=0), J('b', duration=0), J('c', duration=0)], [(2, 0), (2, 1)], window=1),
+            S('top', [S('n1', [J('x', critical=True, outcome='raise')], critical=True), J('y', duration=3)], critical=True),
+            S('top', [S('n1', [S('n2', [J('x', critical=True, outcome='raise')], critical=True)], critical=True),
+                      J('y', duration=3)], critical=False),
+            S('top', [J('a', shutdown_duration=3), J('b')], shutdown_timeout=0.125),
+            S('top', [S('in', [J('x', shutdown_duration=3)], shutdown_timeout=0.125), J('b', duration=2)]),
+        ]
+        for sp in fixed:
+            yield {'kind': 'rt', 'prop': prop, 'spec': sp}
+        for i in range(k):
+            seed = rng.randrange(1 << 30)
+            r2 = random.Random(seed)
+            if prop == 'C10':
+                yield {'kind': 'rt-c10', 'prop': prop, 'spec': RT.gen_c10(r2)}
+                continue
+            sp = RT.gen_tree(r2)
+            if prop == 'C06':
+                sp2, flipped = RT.c06_pair(sp, r2)
+                if flipped:
+                    yield {'kind': 'rt-c06', 'prop': prop, 'spec': sp, 'spec2': sp2, 'flipped': flipped}
+                continue
+            yield {'kind': 'rt', 'prop': prop, 'spec': sp}
+    return gen
+
+
+def rt_run(case):
+    from replay import runtime as RT
+    if case['kind'] == 'rt-c06':
+        return RT.o_c06(case['spec'], case['spec2'], case['flipped'])
+    if case['kind'] == 'rt-c10':
+        return RT.o_c10(case['spec'])
+    if case['prop'] in ('C06', 'C10'):
+        # fixed scenarios: checked through the pairing of the property
+        if case['prop'] == 'C06':
+            sp2, fl = RT.c06_pair(case['spec'], random.Random(1))
+            return RT.o_c06(case['spec'], sp2, fl) if fl else None
+        return None
+    return RT.run_oracle(case['prop'], case['spec'])
+
+
 PROPS = {
     'C15': (c15_cases, c15_run, 'all loop-free digraphs up to 4 (quick) / sampled 5 (thorough) nodes at three '
             'placements, random digraphs on 5-8 nodes, add/remove mutation sequences; non-trivial = at least one edge'),
     'C19': (c19_cases, c19_run, 'random programs of 1-7 construction operations over 6 jobs, 2 schedulers, nested '
             'list/tuple/set arguments up to depth 3, interpreted by the library and by a reference model of the documented '
             'semantics, compared after every operation; non-trivial = every distinct program'),
+    **{p: (rt_cases(p), rt_run, 'hand-written scenarios for the situations the statement singles out, then seeded random '
+           'scheduler trees (depth <= 2, <= 4 members per level, windows, timeouts, critical/forever flags, raising jobs, '
+           'zero durations, slow cancellation and shutdown handlers) run on the real code in virtual time and judged by a '
+           'trace oracle written from the statement; non-trivial = every distinct scenario')
+       for p in ('C01', 'C02', 'C03', 'C04', 'C05', 'C06', 'C07', 'C08', 'C09', 'C10', 'C11', 'C12', 'C13', 'C14')},
     'C16': (c16_cases, c16_run, 'random scheduler trees of depth <= 3 with requirement edges inside schedulers, and (3 in 4) '
             'edges to outsiders, siblings, parents, children, nested schedulers; non-trivial = every case (seeded tree)'),
     'C17': (c17_cases, c17_run, 'all DAGs up to 4 nodes with all start sets of size <= 2, random DAGs up to 8/12 '
@@ -658,7 +723,7 @@ PROPS = {
 
 
 def nontrivial(case):
-    return bool(case.get('edges')) or case['kind'].endswith('tree') or case['kind'].endswith('op') or 'seed' in case or 'prog' in case
+    return bool(case.get('edges')) or case['kind'].endswith('tree') or case['kind'].endswith('op') or 'seed' in case or 'prog' in case or 'spec' in case
 
 
 def main(argv):
